@@ -16,7 +16,7 @@ Requests (one per line; the answer is zero or more lines, then `.`):
                  `advance <rat>` · `bytes <hex>` · `lost` · `close` · `disconnect` ·
                  `meta <host> <port>` · `wfail <0|1>` → observation lines · `bc-state` → a dump
                  A `make` may carry a re-entrant callback: `make <id> <0|1> hook <action> [; <action>]…` with <action> one of
-                 `close`, `disconnect`, `cancel <id>`, `make <id> <0|1>`; `stubborn <0|1>` switches the endpoint that
+                 `close`, `disconnect`, `cancel <id>`, `make <id> <0|1>`; `sync <none|ok|fail>` makes the endpoint answer `connect()` synchronously; `stubborn <0|1>` switches the endpoint that
                  connects from inside `cancel()`.  All broker-client events are executed by the re-entrant model
                  (`Afkak/BrokerClientR.lean`); observations then include the markers `made <serial> <id>`,
                  `closing`, `hook <serial>`, `endhook`.  As long as no callback has been registered the flat
@@ -149,6 +149,9 @@ open Afkak.BrokerClientR in
 def parseEvR : List String → Option EvR
   | "make" :: i :: e :: "hook" :: h => do some (.make (← i.toInt?) (← parseBool e) (some (← parseHook h)))
   | ["stubborn", b] => do some (.stubborn (← parseBool b))
+  | ["sync", "none"] => some (.syncMode .none)
+  | ["sync", "ok"] => some (.syncMode .ok)
+  | ["sync", "fail"] => some (.syncMode .fail)
   | ws => (parseEv ws).map .flat
 
 open Afkak.BrokerClientR in
@@ -177,6 +180,7 @@ def flatOf : EvR → Option Ev
   | .make _ _ (some _) => none
   | .flat e => some e
   | .stubborn _ => none
+  | .syncMode _ => none
 
 def showReq (r : Req) : String :=
   s!"{r.serial}:{r.id}:{if r.expect then 1 else 0}{if r.sent then 1 else 0}{if r.cancelled then 1 else 0}"
@@ -272,7 +276,10 @@ def flatTrace (tr : List (Afkak.BrokerClientR.EvR × List Afkak.BrokerClientR.Ob
     Option (List (Afkak.BrokerClient.Ev × List Afkak.BrokerClient.Ob)) :=
   tr.mapM fun t => do
     let e ← BC.flatOf t.1
-    if Afkak.BrokerClientR.hooked t.2 then none else some (e, Afkak.BrokerClientR.plain t.2)
+    -- an exception that escaped from a top-level call (`raise other:…`, never produced by the model) is not part
+    -- of the flat alphabet: it is dropped here and the flat monitors judge what the call did and did not do
+    if t.2.any (fun o => match o with | .hookBegin _ => true | _ => false) then none
+    else some (e, Afkak.BrokerClientR.plain t.2)
 
 def bsStep (st : DSt) (e : Afkak.Bootstrap.Ev) : DSt × List String :=
   let r := Afkak.Bootstrap.step st.bs e
